@@ -224,6 +224,38 @@ func gen(r *hx.Rand, tier string) []json.RawMessage {
 			out = append(out, genKernelPreset(rr, p, pol))
 		}
 	}
+	// directed: the recorded finding (no same-address ordering: here split read/write queues let a
+	// younger read overtake an older write to the same address), always included
+	{
+		in := input{Spec: SpecIn{Preset: "DDR4Spec", Over: map[string]int64{"page_policy": 1, "read_queue_size": 8,
+			"write_queue_size": 1, "write_high_watermark": 8, "write_low_watermark": 0}},
+			Run: &runIn{PortBuf: 8, SnapEvery: 8, Overlap: true}}
+		for i := 0; i < 4; i++ {
+			in.Run.Reqs = append(in.Run.Reqs, reqIn{Write: true, Addr: uint64(i+1) << 17, Size: 4, Seed: byte(i)})
+		}
+		in.Run.Reqs = append(in.Run.Reqs, reqIn{Write: true, Addr: 64, Size: 4, Seed: 77}, reqIn{Addr: 64, Size: 4})
+		out = append(out, hx.J(in))
+	}
+	// same-address read-after-write / write-after-read / write-after-write without waiting on the
+	// unified command queue: also reordered when tRCDWR < tRCDRD (GDDR/HBM) - same finding
+	for i := 0; i < nr/8; i++ {
+		rr := r.Fork()
+		var in input
+		hx.UJ(genRun(rr, 10+rr.Intn(30)), &in)
+		delete(in.Spec.Over, "read_queue_size")
+		delete(in.Spec.Over, "write_queue_size")
+		delete(in.Spec.Over, "write_high_watermark")
+		delete(in.Spec.Over, "write_low_watermark")
+		in.Run.Overlap = true
+		// make collisions frequent: fold the addresses onto a few words
+		for j := range in.Run.Reqs {
+			if rr.Chance(2, 3) && j > 0 {
+				k := rr.Intn(j)
+				in.Run.Reqs[j].Addr, in.Run.Reqs[j].Size = in.Run.Reqs[k].Addr, in.Run.Reqs[k].Size
+			}
+		}
+		out = append(out, hx.J(in))
+	}
 	for i := 0; i < nk; i++ {
 		out = append(out, genKernel(r.Fork(), i%3 == 2, 20+r.Intn(60)))
 	}
@@ -291,6 +323,7 @@ func init() {
 			"real-component runs with random preset, geometry (1-2 ranks, 1-4 groups, 1-4 banks or preset), page policy, tFAW (preset/random/0), perturbed " +
 			"timing parameters, queue configuration (unified small / split read-write with watermarks), optional short tREFI/tRFC, port buffer 1-8, " +
 			"8-47 reads/writes (4 B..one access unit, some straddling two units) concentrated on 1-5 hot banks x 2-4 rows. " +
+			"Plus runs whose requester does NOT wait between accesses to the same bytes (program order defines the expected data; recorded finding: the scheduler keeps no same-address order). " +
 			"Non-trivial: a run with >=6 issued commands on >=2 banks incl. >=2 activates; a clean kernel run with >=3 issues incl. a precharge; an arbitrary-state kernel run with >=1 issue.",
 		Gen: gen, Run: run, Shrink: shrink,
 	})
